@@ -846,7 +846,7 @@ fn eval0(g: &G, pos: usize, env: Env, w: &mut World) -> R {
             let (e, _) = eval(a, pos, env, w)?;
             Some((e, Val::Sl(pos, t[pos..e].iter().collect())))
         }
-        ToSpan(a) | SpanWith(a) => {
+        ToSpan(a) | SpanWith(a) | TryMapSpan(a) => {
             let (e, _) = eval(a, pos, env, w)?;
             Some((e, Val::Sp(pos, e)))
         }
